@@ -18,7 +18,7 @@ type TextCase struct {
 }
 
 func (c TextCase) Text() string {
-	isIdent := func(t string) bool { return len(t) > 0 && t[0] >= 'a' && t[0] <= 'z' }
+	isIdent := isIdentTok
 	var sb strings.Builder
 	for i, t := range c.Toks {
 		if i > 0 {
@@ -58,7 +58,16 @@ func (p *refParser) peek() string {
 	return ""
 }
 
-func isIdentTok(t string) bool { return len(t) > 0 && t[0] >= 'a' && t[0] <= 'z' }
+// isIdentTok: an identifier is a letter or underscore followed by letters, digits, underscores.
+func isIdentTok(t string) bool {
+	for i, c := range t {
+		letter := c == '_' || (c >= 'a' && c <= 'z') || (c >= 'A' && c <= 'Z')
+		if !letter && (i == 0 || c < '0' || c > '9') {
+			return false
+		}
+	}
+	return len(t) > 0
+}
 
 var refLevels = []struct{ tok, op string }{{";", "and"}, {"=", "eq"}, {"->", "implies"}, {"|", "or"}, {"&", "and"}}
 
@@ -255,7 +264,7 @@ type c17 struct{}
 func (c17) ID() string    { return "C17" }
 func (c17) Level() string { return "exploration" }
 func (c17) Rule() string {
-	return "cases = (1) every syntax tree with <=4 leaves (leaves a,b,c,a in order, or brace groups of 1..3 names) over the binary operators ; = -> | & with at most one negation inserted at any node (two for <=3 leaves), rendered with the required parentheses plus every set of <=2 redundant parenthesis pairs (every set for <=3 leaves) in three spacing styles (none, single space, newline+tab); (2) every token string of length <=6 (8 thorough) over {a,b,^,&,|,->,=,;,(,)}; (3) corruptions of the renderings of (1): delete any one token, insert '(' or ')' or an identifier or ';' at any position. Each text is judged by a reference recogniser of the grammar documented in bf/doc.go with the documented priorities and right-nested repetition: in the language => Parse succeeds and the formula's truth table (Formula.Eval) equals that of the reference reading; not in the language => error and nil formula; never a panic. A single trailing ';' is tolerated either way (the statement does not forbid it). Non-trivial = the text has at least two operators."
+	return "cases = (1) every syntax tree with <=4 leaves (leaves a,b,c,a in order, brace groups of 1..3 names, or identifiers with a leading underscore, digits, upper case) over the binary operators ; = -> | & with at most one negation inserted at any node (two for <=3 leaves), rendered with the required parentheses plus every set of <=2 redundant parenthesis pairs (every set for <=3 leaves) in three spacing styles (none, single space, newline+tab); (2) every token string of length <=6 (8 thorough) over {a,b,^,&,|,->,=,;,(,)}; (3) corruptions of the renderings of (1): delete any one token, insert '(' or ')' or an identifier or ';' at any position. Each text is judged by a reference recogniser of the grammar documented in bf/doc.go with the documented priorities and right-nested repetition: in the language => Parse succeeds and the formula's truth table (Formula.Eval) equals that of the reference reading; not in the language => error and nil formula; never a panic. A single trailing ';' is tolerated either way (the statement does not forbid it). Non-trivial = the text has at least two operators."
 }
 func (c17) Assumptions() []string {
 	return []string{"the reference recogniser implements the grammar of bf/doc.go extended with brace groups as described in the Parse documentation", "identifiers are single lower-case letters; brace groups have at most 3 names (no auxiliary variables, so Formula.Eval is defined)"}
@@ -280,11 +289,12 @@ func (c17) Enumerate(tier string, seed int64, yield func(string, core.Case) bool
 	leafSets := [][][]string{
 		{{"a"}, {"b"}, {"c"}, {"a"}},
 		{{"{", "a", "}"}, {"b"}, {"{", "a", ",", "b", "}"}, {"{", "a", ",", "b", ",", "c", "}"}},
+		{{"_x"}, {"x1"}, {"{", "a_b", ",", "_", "}"}, {"Y"}}, // identifier shapes: leading underscore, digits, upper case
 	}
 	var corpus [][]string // renderings kept for the corruption family
 	for li, leaves := range leafSets {
 		for k := 1; k <= 4; k++ {
-			if li == 1 && k == 4 && !thorough {
+			if li >= 1 && k == 4 && !thorough {
 				continue
 			}
 			for _, base := range enumTrees(leaves[:k], ops) {
